@@ -149,7 +149,9 @@ Section DNSSL.
            t <- idx b i ;;
            l1 <- idx b (i + 1) ;;
            let l := (N.to_nat l1 * 8)%nat in
-           if Nat.ltb (len r) l then Err EOther
+           (* RFC 4861 4.6 guard added by the #12 repair: a zero-length option is an error *)
+           if Nat.eqb l 0 then Err EOther
+           else if Nat.ltb (len r) l then Err EOther
            else
              o <- sl b i (i + l) ;;
              _ <- opt_step (len b) t o ;;
@@ -168,31 +170,3 @@ Section DNSSL.
     else (b <- slfrom p 24 ;; new_parse_options fuel b)%res.
 End DNSSL.
 
-(* ---------------------------------------------------------------- *)
-(* Known defect class (DESIGN section 11 #12): the option walk reaches an option whose
-   length byte is 0.  Types 1,2,3,5,24,25 index into the empty sub-slice (panic);
-   type 31 (RawOption.unmarshal returns an error that is logged and ignored) and
-   every unknown type leave i unchanged (i += 0): the loop never ends. *)
-Inductive zclass := ZNone | ZPanic | ZLoop.
-
-Definition panics_type (t : N) : bool :=
-  (t =? 1) || (t =? 2) || (t =? 3) || (t =? 5) || (t =? 24) || (t =? 25).
-
-Fixpoint zero_opt (n : nat) (b : slice) (i : nat) : zclass :=
-  match n with
-  | O => ZNone
-  | S n' =>
-      if Nat.ltb (len b - i) 2 then ZNone
-      else
-        let t := nth i (arr b) 0 in
-        let l1 := nth (i + 1) (arr b) 0 in
-        if l1 =? 0 then (if panics_type t then ZPanic else ZLoop)
-        else if Nat.ltb (len b - i) (N.to_nat l1 * 8) then ZNone
-        else zero_opt n' b (i + N.to_nat l1 * 8)
-  end.
-
-Definition known_C08_ndp_zero (b : slice) : zclass := zero_opt (len b) b 0.
-Definition known_C08_ndp_zero_panic (b : slice) : bool :=
-  match known_C08_ndp_zero b with ZPanic => true | _ => false end.
-Definition known_C08_ndp_zero_loop (b : slice) : bool :=
-  match known_C08_ndp_zero b with ZLoop => true | _ => false end.
